@@ -26,7 +26,7 @@ func init() {
 	Register(&Prop{
 		ID:    "C15",
 		Title: "Provider collateral is fully backed and returned exactly once",
-		Cases: func(t string) int { return tierN(t, 150, 2000) },
+		Cases: func(t string) int { return tierN(t, 150, 20000) },
 		Run:   runC15,
 		Rule: "case = one history of 14-45 steps over 4 accounts (one of them drained by a bank transfer to a boundary balance around the price): MsgInitProvider / MsgShutdownProvider (by providers, by non-providers, repeated), re-init after shutdown, bank transfers between the accounts, storage purchases with and without a referrer (tokens moving through the module's other accounts), unrelated provider-record edits, block boundaries, and (about 60% of the cases) 1-3 real governance changes of CollateralPrice placed between lock and refund; initial price from a boundary pool. " +
 			"after EVERY delivered transaction (including the governance ones, checked when ParamChange returns): balance(storage_collateral_name) == sum of Collateral.Amount over GetAllCollateral == sum of the model's locks, record set == model, provider set (AllProviders query) == model; init: registrant -current CollateralPrice (Params query), escrow +same, no other balance moves, record == price; shutdown: registrant +recorded amount, escrow -same, no other balance moves, both records gone; shutdown by a non-provider: nothing moves. " +
